@@ -65,6 +65,9 @@ def gen_tau2():
         "logscale": st.sampled_from([0.0, 0.0, -3.0, 3.0, 1.0]), "a": st.sampled_from([0.01, 0.5, 1.0, 3.0, 10.0]), "b": st.sampled_from([0.01, 0.5, 1.0, 3.0, 10.0]),
         "beta_kind": st.sampled_from(["random", "random", "null", "range"]), "builder": st.sampled_from(["distreg", "hand"]),
         "seed": st.integers(0, 10**6), "case_seed": st.integers(0, 2**30), "tau2_0": f32(-1, 1), "move_hyper": st.booleans(),
+        # corners of "for all hyperparameters and coefficient values": a tiny inverse-gamma scale with tiny coefficients (conditional mass near 1e-8)
+        # and huge coefficients (conditional mass near 1e7)
+        "extreme": st.sampled_from([None, None, None, "tiny", "huge"]),
     })
 
 
@@ -88,6 +91,7 @@ def make_tau2_model(c):
         beta = R @ rng.normal(size=r)
     else:
         beta = rng.normal(size=d)
+    beta = beta * {"tiny": 4e-5, "huge": 3e3}.get(c.get("extreme"), 1.0)
     n = 6
     X = rng.normal(size=(n, d)).astype(np.float32)
     y = rng.normal(size=n).astype(np.float32)
@@ -124,6 +128,12 @@ def make_tau2_model(c):
 
 
 def oracle_tau2(c):
+    if c.get("extreme"):
+        c = dict(c, move_hyper=False, logscale=0.0, **({"b": 2e-8, "a": min(c["a"], 1.0)} if c["extreme"] == "tiny" else {}))
+        if c["extreme"] == "huge" and c["beta_kind"] == "null":
+            # huge coefficients inside the null space: beta' K beta is pure float32 cancellation noise (~1e-7 |beta|^2 |K|), not a quantity the
+            # kernel could get right; such coefficients are given a range-space component instead
+            c["beta_kind"] = "random"
     det = lambda: f"{c}"  # noqa: E731
     model, group, tname, rank, quad, r, d = make_tau2_model(c)
     kernel = tau2_gibbs_kernel(group)
@@ -168,7 +178,7 @@ def oracle_tau2(c):
     out = kernel.transition(jax.random.PRNGKey(c["case_seed"] % 2**31), kernel.init_state(None, state), state, None)
     new = out.model_state
     require(float(new[group["tau2"].value_node.name].value) > 0 and out.info.acceptance_prob == 1.0, "tau2:transition-info", det)
-    return {"nt": bool(r < d and quad > 1e-6), "cls": [c["builder"], c["pen"], "hyper-moved" if c.get("move_hyper") else "hyper-fixed", "deficient" if r < d else "full", c["beta_kind"], f"scale{c['logscale']}"],
+    return {"nt": bool(r < d and quad > 1e-6), "cls": [c["builder"], c["pen"], "hyper-moved" if c.get("move_hyper") else "hyper-fixed", "deficient" if r < d else "full", c["beta_kind"], f"scale{c['logscale']}", f"extreme:{c.get('extreme')}"],
             "extra": {"max_abs_z": rep["max_abs_z"]}}
 
 
@@ -189,7 +199,7 @@ def gen_discrete():
         grid = [-1.5, -1.0, 0.0, 0.5, 1.0, 1.5, 2.0, 2.5, 3.0, 4.0]
         outcomes = sorted(draw(st.lists(st.sampled_from(grid), min_size=k, max_size=k, unique=True)))
         return {"prior": prior, "w": w, "outcomes": [float(o) for o in outcomes], "int_init": draw(st.booleans()), "path": draw(st.sampled_from(["none", "direct", "calc", "named_var", "two_level", "weak_resid"])),
-                "explicit_outcomes": draw(st.booleans()), "n": draw(st.integers(1, 4)), "seed": draw(st.integers(0, 10**6)), "case_seed": draw(st.integers(0, 2**30)),
+                "explicit_outcomes": draw(st.booleans()), "n": draw(st.one_of(st.integers(1, 4), st.integers(1, 4), st.sampled_from([150, 400]))), "seed": draw(st.integers(0, 10**6)), "case_seed": draw(st.integers(0, 2**30)),
                 "scale": draw(st.sampled_from([0.7, 1.5, 4.0])), "z0": draw(st.integers(0, 5)), "tempered": draw(st.integers(0, 3)) == 0}
 
     return g()
